@@ -5,6 +5,8 @@
 
 package exporter
 
+import "net"
+
 // VerifSetSeqNumber sets the sequence counter, so that sessions crossing the 2^32 wrap can
 // be exercised without sending four billion records. Call it before any concurrent use.
 func (ep *ExportingProcess) VerifSetSeqNumber(n uint32) {
@@ -15,4 +17,11 @@ func (ep *ExportingProcess) VerifSetSeqNumber(n uint32) {
 // the caller's choosing.
 func (ep *ExportingProcess) VerifSendRefreshedTemplates() error {
 	return ep.sendRefreshedTemplates()
+}
+
+// VerifWrapConn replaces the connection to the collector by wrap(connection), so that a check
+// can observe or delay single calls on it (a Close that takes a while, as crypto/tls's does on
+// a congested connection). Call it before any concurrent use.
+func (ep *ExportingProcess) VerifWrapConn(wrap func(net.Conn) net.Conn) {
+	ep.connToCollector = wrap(ep.connToCollector)
 }
